@@ -367,4 +367,7 @@ def check(ctx: Ctx, col: Collector, tier: str) -> None:
     (col.ok if inner and not probs else col.bad)("C03.MOVE", f"{GEN}::{GENCLS}.create_reexport_module_strings::one-module-per-moved-declaration", repo.loc(GEN, rfi.node),
                                                  "each moved class/function yields exactly one module entry rendered with in_reexport_module=True" if inner and not probs else "; ".join(sorted(set(probs))) or "loop not found",
                                                  *([] if inner and not probs else [sorted(set(probs or ['loop over moved declarations not found']))[0]]))
+    from .shared import share
+    share(ctx, col, "C17", {"C17.RECURSE", "C17.FILTER"}, "inherited members are emitted exactly once")
+    share(ctx, col, "C04", {"C04.REEXPORT-GUARDS", "C04.PUBLICITY-TABLE"}, "nothing public is dropped: the publicity decision is the reference one")
     col.assume("that both shortest-re-export computations (string matching over arbitrary names) pick the same target, and name collisions after conversion, are not decided")
